@@ -261,12 +261,16 @@ func runMon(ctx *vm.Context, L int64) (o outcome) {
 		return
 	}
 	prog := ctx.Code
+	// checkpoint of the potential: with more than deepStack items on the stacks the potential is
+	// recomputed (O(stack)) only every deepStack instructions and the bound is asserted in
+	// aggregate: phi(now) <= phi(checkpoint) - instructions executed since
+	const deepStack = 256
+	ckPhi, ckStep := L, 0
 	for !d.Done() {
 		run0 := d.RunLimit()
 		if run0 < o.minRun {
 			o.minRun = run0
 		}
-		phi0 := run0 + stackCost(d.DataStack()) + stackCost(d.AltStack())
 		pc := d.PC()
 		opc := prog[pc]
 		if opc == 0xc0 {
@@ -274,25 +278,38 @@ func runMon(ctx *vm.Context, L int64) (o outcome) {
 				o.inherit = true
 			}
 		}
-		if phi0 > L {
-			o.v = &viol{"potential-above-limit", fmt.Sprintf("before pc %d (%s) gas %d + stack cost = %d exceeds the limit %d", pc, opName(opc), run0, phi0, L)}
-			break
+		fine := len(d.DataStack())+len(d.AltStack()) <= deepStack
+		phi0 := ckPhi // upper bound of the potential in coarse mode
+		if fine || o.okSteps-ckStep >= deepStack {
+			phi0 = run0 + stackCost(d.DataStack()) + stackCost(d.AltStack())
+			if phi0 > ckPhi-int64(o.okSteps-ckStep) {
+				o.v = &viol{"phi-increase-deep-stack", fmt.Sprintf("before pc %d (%s): potential %d, but it was %d %d instructions earlier", pc, opName(opc), phi0, ckPhi, o.okSteps-ckStep)}
+				break
+			}
+			ckPhi, ckStep = phi0, o.okSteps
 		}
 		err = d.Step()
 		o.steps++
 		run1 := d.RunLimit()
-		phi1 := run1 + stackCost(d.DataStack()) + stackCost(d.AltStack())
 		if err != nil {
 			// the program halts here; the failing instruction may not hand out gas
 			if run1 > phi0 {
 				o.v = &viol{"failed-step-gains-gas-" + opName(opc), fmt.Sprintf("failing %s at pc %d: gas %d -> %d with potential %d before", opName(opc), pc, run0, run1, phi0)}
 			}
-			if phi1 > phi0 {
+			if fine && run1+stackCost(d.DataStack())+stackCost(d.AltStack()) > phi0 {
 				o.unpaid = true
 			}
 			break
 		}
 		o.okSteps++
+		if int64(o.okSteps) > L {
+			o.v = &viol{"steps-exceed-limit", fmt.Sprintf("%d instructions executed under limit %d", o.okSteps, L)}
+			break
+		}
+		if !fine {
+			continue
+		}
+		phi1 := run1 + stackCost(d.DataStack()) + stackCost(d.AltStack())
 		if phi1 > phi0 {
 			o.v = &viol{"phi-increase-" + opName(opc), fmt.Sprintf("%s at pc %d: gas %d -> %d, potential (gas + cost of both stacks) %d -> %d: the instruction created gas", opName(opc), pc, run0, run1, phi0, phi1)}
 			break
@@ -301,10 +318,7 @@ func runMon(ctx *vm.Context, L int64) (o outcome) {
 			o.v = &viol{"phi-no-drop-" + opName(opc), fmt.Sprintf("%s at pc %d: gas %d -> %d, potential stays %d: the executed instruction consumed no gas", opName(opc), pc, run0, run1, phi0)}
 			break
 		}
-		if int64(o.okSteps) > L {
-			o.v = &viol{"steps-exceed-limit", fmt.Sprintf("%d instructions executed under limit %d", o.okSteps, L)}
-			break
-		}
+		ckPhi, ckStep = phi1, o.okSteps
 	}
 	o.gasLeft = d.RunLimit()
 	if o.gasLeft < o.minRun {
@@ -352,11 +366,12 @@ func same(a outcome, la int64, b outcome, lb int64) bool {
 // ---------------------------------------------------------------- per-case procedure
 
 type plan struct {
-	sweep  int     // every limit 0..sweep-1 is run (0: none)
-	extras []int64 // additional fixed limits
-	max    bool    // also run under MaxGasAmount
-	verify bool    // cross-check the driver against vm.Verify
-	family string
+	sweep   int     // every limit 0..sweep-1 is run (0: none)
+	extras  []int64 // additional fixed limits
+	max     bool    // also run under MaxGasAmount (cases that need <= 5000)
+	maxLoop bool    // ... and cases that need more than 5000 (loops), on the empty initial stack
+	verify  bool    // cross-check the driver against vm.Verify
+	family  string
 }
 
 type caseRec struct {
@@ -467,7 +482,7 @@ func (w *worker) evalCase(pl plan, prog []byte, args [][]byte) {
 	if base.unpaid {
 		w.unpaid++
 	}
-	if pl.verify {
+	if pl.verify && base.v == nil {
 		w.verified++
 		g, err := vm.Verify(w.ctx, bigLimit)
 		c := classOf(err)
@@ -612,7 +627,7 @@ func main() {
 	// the live heap is tiny and the allocation rate huge: collect only when 1 GiB of garbage has
 	// piled up, otherwise the run is dominated by stop-the-world pauses on a loaded machine
 	debug.SetGCPercent(-1)
-	debug.SetMemoryLimit(1 << 30)
+	debug.SetMemoryLimit(256 << 20)
 	run := ev.Start("C07", "exploration")
 	thorough := run.Thorough()
 
@@ -640,7 +655,7 @@ func main() {
 		var pl plan
 		switch {
 		case n <= 2:
-			stacks, pl = stacksZOH, plan{sweep: 41, max: true, verify: true}
+			stacks, pl = stacksZOH, plan{sweep: 41, max: true, maxLoop: true, verify: true}
 			if thorough {
 				stacks = stacksZOTH
 			}
@@ -709,9 +724,9 @@ func main() {
 		{[][]byte{itO, itO}, itO, 1},
 		{[][]byte{itZ, itO}, itT, 2},
 		{[][]byte{itH}, itO, 1},
-		{[][]byte{itZ, exact(0xc4), itO}, itZ, 3},         // grandchild triple: PROGRAM under limit 1
-		{[][]byte{itZ, exact(0x51), itZ}, exact(3), 3},    // grandchild triple: OP_1, inherits
-		{[][]byte{itO, exact(0x76, 0x93), itZ}, itZ, 3},   // grandchild triple: DUP ADD on one item
+		{[][]byte{itZ, exact(0xc4), itO}, itZ, 3},       // grandchild triple: PROGRAM under limit 1
+		{[][]byte{itZ, exact(0x51), itZ}, exact(3), 3},  // grandchild triple: OP_1, inherits
+		{[][]byte{itO, exact(0x76, 0x93), itZ}, itZ, 3}, // grandchild triple: DUP ADD on one item
 	}
 	curFamily = "F2"
 	shapes := [][]byte{{0xc0}, append([]byte{0xc0}, pad...)}
@@ -792,7 +807,7 @@ func main() {
 					}
 					if pi < 20 && ri < 20 { // sequences of <= 2 pushes and <= 2 refunds, closed into a loop
 						loop := exact(append(append([]byte{}, straight...), 0x63, 0, 0, 0, 0)...)
-						pl := plan{family: "F3/push-refund-loop", sweep: 41, extras: []int64{100, 1000}, verify: true}
+						pl := plan{family: "F3/push-refund-loop", sweep: 41, extras: []int64{100, 1000}, maxLoop: pi < 4 && ri < 4, verify: true}
 						for _, st := range [][][]byte{{}, {itO}} {
 							w.evalCase(pl, loop, st)
 						}
@@ -812,7 +827,7 @@ func main() {
 			for _, lim := range [][]byte{itZ, itO, itT, pushNum(300)} {
 				for _, tail := range [][]byte{nil, pad} {
 					prog := exact(append(append([]byte{}, loopBody...), tail...)...)
-					pl := plan{family: "F3/checkpredicate-loop", extras: []int64{0, 1, 40, 100, 1000}, max: len(tail) > 0, verify: true}
+					pl := plan{family: "F3/checkpredicate-loop", extras: []int64{0, 1, 40, 100, 1000}, max: true, verify: true}
 					w.evalCase(pl, prog, [][]byte{itO, pred, lim})
 				}
 			}
